@@ -600,7 +600,7 @@ example : (delMetadata exTable (some ["env", "barcode"]) .sample).toOption.map (
 example : (delMetadata exTable (some ["env"]) .whole).toOption.map (fun t => (keyOf t .samp "S1" "env",
     keyOf t .samp "S1" "barcode", keyOf t .obs "O1" "taxonomy")) = some (none, some "\"AT\"", some "[\"k__A\"]") := by
   decide
-example : delMetadata exTable none .bad = .error .unknownAxis := by decide
+example : delMetadata exTable none .bad = .error .unknownAxis := delMd_bad_axis exTable none
 
 /-- `#ID⇥A⇥B`, a comment, a blank line, a quoted and padded row, a short row -/
 def exFile : List GLine :=
